@@ -427,6 +427,17 @@ func ptrSubject(name string, zero interface{}) subject {
 	}}
 }
 
+// ptrSubjectDeep: recursive types (a Targetable nests Targetables) are populated several levels down, so
+// that sharing below the first nested level is also probed
+func ptrSubjectDeep(name string, zero interface{}, depth int) subject {
+	t := reflect.TypeOf(zero).Elem()
+	return subject{name, func(p *populator) reflect.Value {
+		v := reflect.New(t)
+		p.fill(v.Elem(), depth)
+		return v
+	}}
+}
+
 func valSubject(name string, zero interface{}) subject {
 	t := reflect.TypeOf(zero)
 	return subject{name, func(p *populator) reflect.Value {
@@ -446,7 +457,7 @@ func c17Subjects() []subject {
 		ptrSubject("AttributeAddrSchema", &schema.AttributeAddrSchema{}),
 		ptrSubject("BlockAsTypeOf", &schema.BlockAsTypeOf{}),
 		ptrSubject("PathTarget", &schema.PathTarget{}),
-		ptrSubject("Targetable", &schema.Targetable{}),
+		ptrSubjectDeep("Targetable", &schema.Targetable{}, 8),
 		ptrSubject("FunctionSignature", &schema.FunctionSignature{}),
 		ptrSubject("DocsLink", &schema.DocsLink{}),
 		ptrSubject("Target", &schema.Target{}),
